@@ -218,7 +218,8 @@ class SQLLexer(Lexer):
     TRUE = r'\bTRUE\b'
     FALSE = r'\bFALSE\b'
 
-    @_(r'(?:([a-zA-Z_$0-9]*[a-zA-Z_$]+[a-zA-Z_$0-9]*)|(?:`([^`]+)`))')
+    # inside back-quotes a doubled back-quote stands for one back-quote (decoded by path_str_to_parts)
+    @_(r'(?:([a-zA-Z_$0-9]*[a-zA-Z_$]+[a-zA-Z_$0-9]*)|(?:`((?:[^`]|``)+)`))')
     def ID(self, t):
         return t
 
@@ -230,12 +231,15 @@ class SQLLexer(Lexer):
     def INTEGER(self, t):
         return t
 
-    @_(r"'[^']*'")
+    # a doubled quote inside the literal stands for one quote
+    @_(r"'(?:[^']|'')*'")
     def QUOTE_STRING(self, t):
+        t.value = "'" + t.value[1:-1].replace("''", "'") + "'"
         return t
 
-    @_(r'"[^"]*"')
+    @_(r'"(?:[^"]|"")*"')
     def DQUOTE_STRING(self, t):
+        t.value = '"' + t.value[1:-1].replace('""', '"') + '"'
         return t
 
     @_(r'\n+')
